@@ -39,6 +39,7 @@ TOUT = [0.0, 0.1, 1.0, 10.0]
 MANT = ("1.0", "2.5", "6.0")
 FEEDS = [(0.5, "ones"), (20.0, "ones"), (20.0, "twos"), (5.0, "first")]
 TOL = 1e-8
+LATE = [40.0, 400.0]  # late times for the closed forms only (no integration)
 NSTEPS = 50000  # scipy lsoda gives up after 500 internal steps by default ("Excess work done"): a solver setting, not chempy
 
 BI = ("Fe+3", "SCN-", "FeSCN+2")
@@ -378,17 +379,20 @@ def check_bimolecular(res, kf, kb, a, b, c, reversible, selfcheck=True):
 
         res.evaluations += 1
         try:
+            # (the closed forms are also asked for late times, where the reaction is over: kf*(major-minor)*t up to 2.6e4)
+            tcf = list(TOUT) + LATE
+            ecf = [e["FeSCN+2"] for e in exact] + [c + float(bimol_exact(kf, kbm, a, b, c, t)) for t in LATE]
             if reversible:
-                cf = [float(integrated.binary_rev(t, kf, kb, c, max(a, b), min(a, b))) for t in TOUT]
+                cf = [float(integrated.binary_rev(t, kf, kb, c, max(a, b), min(a, b))) for t in tcf]
             else:
-                cf = [float(integrated.binary_irrev(t, kf, c, max(a, b), min(a, b))) for t in TOUT]
-            worst = max(abs(v - e["FeSCN+2"]) / max(1.0, abs(e["FeSCN+2"])) for v, e in zip(cf, exact))
+                cf = [float(integrated.binary_irrev(t, kf, c, max(a, b), min(a, b))) for t in tcf]
+            worst = max(abs(v - e_) / max(1.0, abs(e_)) if v == v else float("inf") for v, e_ in zip(cf, ecf))
         except Exception as e:
             cf, worst = "EXC %s" % type(e).__name__, float("inf")
         if not worst <= TOL:
             ok = False
             _viol(res, "C06|%s|closed-form|differs-from-exact-solution" % layer, "%s from %s: chempy.kinetics.integrated.%s gives product %r at t=%r, exact %r" % (
-                what, c0, "binary_rev" if reversible else "binary_irrev", cf, TOUT, [e["FeSCN+2"] for e in exact]), case, cf, [e["FeSCN+2"] for e in exact])
+                what, c0, "binary_rev" if reversible else "binary_irrev", cf, tcf, ecf), case, cf, ecf)
         else:
             res.outcomes["B closed form agrees"] += 1
     r = kf * a * b - kbm * c
